@@ -19,7 +19,7 @@ class P:
             "0 or after each of the four built-in registration stages while the other threads parse / execute / register; (b) plain races "
             "of 2-8 first calls; (c) registrations racing evaluations that use the registered name, re-registrations inside the window in which "
             "the replaced handler is dropped, registrations arriving while an evaluation is inside a handler, and 200 rounds per process of a "
-            "registration racing twelve first uses of that spelling, each followed by a sequential use; (d) a call that panics inside the engine (a precedence of 2^30 or more overflows the binding power when the operator is looked up) before, beside and ahead of calls that do not use that operator (oracle only). Oracle: no panic, no deadlock, and "
+            "registration racing twelve first uses of that spelling, each followed by a sequential use; (d) 100 rounds per process of four registrations of distinct names released together (one registry or all four), each round followed by a sequential use of every name; (e) a call that panics inside the engine (a precedence of 2^30 or more overflows the binding power when the operator is looked up) before, beside and ahead of calls that do not use that operator (oracle only). Oracle: no panic, no deadlock, and "
             "every call's result (value and final context; logs are interleaved and ignored) is one that the sequential model produces "
             "under some order of the same calls (all permutations are run through the extracted model). "
             "Non-trivial = distinct run with >= 2 concurrent calls.")
@@ -112,6 +112,22 @@ class P:
                 # the registration is issued 1 ms into the round: the readers (about 1.2 ms per parse) are in the middle of theirs
                 ops += ["||"] + readers + ["~1/REGI:%s:%s:0:0:61" % (hx("wq"), p_), ";;"] + readers
             items.append((" ".join(ops), ("rereg-persistent", "I", 6)))
+        # SEVERAL registrations at once (distinct names, one registry or all four), many rounds in one process, each round followed
+        # by sequential uses of every name registered in it: no registration is lost, whatever the others did to the table meanwhile
+        for kinds in ("IIII", "FFFF", "PPPP", "SSSS", "IPSF", "IIFF"):
+            for rep in range(2 if tier == "quick" else 20):
+                ops = ["H:61:rs(%s)" % hx("h61"), "PARSE:" + hx("1")]
+                for k in range(100):
+                    regs, posts = [], []
+                    for j, kind in enumerate(kinds):
+                        w = "m%s%d_%d_%d" % (kind.lower(), rep, k, j)
+                        if kind == "P": reg, post = "REGP:%s:61" % hx(w), "EXEC:1:" + hx("%s 5" % w)
+                        elif kind == "S": reg, post = "REGS:%s:61" % hx(w), "EXEC:1:" + hx("5 %s" % w)
+                        elif kind == "I": reg, post = "REGI:%s:6f:0:0:61" % hx(w), "EXEC:1:" + hx("5 %s 6" % w)
+                        else: reg, post = "REGF:%s:61" % hx(w), "EXEC:1:" + hx("%s(5)" % w)
+                        regs.append("~n%d/%s" % (((k + j) % 8) * 250, reg)); posts.append(post)
+                    ops += ["||"] + regs + ["PARSE:" + hx("0"), ";;"] + posts
+                items.append((" ".join(ops), ("reg-reg-race", kinds, 7)))
         # a call that panics INSIDE the engine (the one way there is: a precedence of 2^30 or more overflows the i32 binding power,
         # in a build with overflow checks, when the operator is looked up) is that call's own business: the calls of other
         # threads, before, concurrently and afterwards, return their sequential results. (Oracle only: the model's binding
